@@ -239,6 +239,16 @@ func (x *Exec) binop(st *State, fr *Frame, in *ssa.BinOp) Val {
 			if k == 0 {
 				return Val{S: "0", T: rt}
 			}
+			if k > 0 {
+				var terms []string
+				for i := 0; i < 62; i++ {
+					if k&(1<<uint(i)) != 0 {
+						p := pow2(i).String()
+						terms = append(terms, "(ite (= (mod (div "+as+" "+p+") 2) 1) "+p+" 0)")
+					}
+				}
+				return Val{S: x.S.Define("i", "Int", "(+ 0 "+strings.Join(terms, " ")+")"), T: rt}
+			}
 			// single-bit / contiguous mask  m = (2^n - 1) << s
 			if s, n, ok := contiguousMask(k); ok {
 				return Val{S: x.S.Define("i", "Int", fmt.Sprintf("(* (mod (div %s %s) %s) %s)", as, pow2(s).String(), pow2(n).String(), pow2(s).String())), T: rt}
@@ -254,6 +264,12 @@ func (x *Exec) binop(st *State, fr *Frame, in *ssa.BinOp) Val {
 		}
 		return Val{S: "(band " + as + " " + bs + ")", T: rt}
 	case token.OR:
+		if k, ok := x.constInt(b); ok && k >= 0 && intBits(rt) > 8 {
+			return Val{S: x.S.Define("i", "Int", orConst(as, k, "(bor "+as+" "+bs+")")), T: rt}
+		}
+		if k, ok := x.constInt(a); ok && k >= 0 && intBits(rt) > 8 {
+			return Val{S: x.S.Define("i", "Int", orConst(bs, k, "(bor "+as+" "+bs+")")), T: rt}
+		}
 		if intBits(rt) <= 8 {
 			return Val{S: x.S.Define("i", "Int", bitwise8(as, bs, "or")), T: rt}
 		}
@@ -721,4 +737,20 @@ func bitwise8(a, b, op string) string {
 		terms = append(terms, "(ite ("+op+" "+ba+" "+bb+") "+p+" 0)")
 	}
 	return "(+ " + strings.Join(terms, " ") + ")"
+}
+
+// orConst is x | k for a non-negative constant k, exact when x >= 0: every
+// bit of k that x lacks is added.
+func orConst(xs string, k int64, fallback string) string {
+	var terms []string
+	for i := 0; i < 62; i++ {
+		if k&(1<<uint(i)) != 0 {
+			p := pow2(i).String()
+			terms = append(terms, "(ite (= (mod (div "+xs+" "+p+") 2) 0) "+p+" 0)")
+		}
+	}
+	if len(terms) == 0 {
+		return xs
+	}
+	return "(ite (>= " + xs + " 0) (+ " + xs + " " + strings.Join(terms, " ") + ") " + fallback + ")"
 }
